@@ -19,6 +19,34 @@ struct timeval current_time;
 double current_dtime;
 time_t squid_curtime = 0;
 
+#if SQUID_VERIF
+#include <cstdlib>
+#include <fcntl.h>
+#include <sys/mman.h>
+#include <unistd.h>
+/// verification hook H1: seconds to add to "now", read from the 8-byte file
+/// named by $SQUID_VERIF_CLOCK (mapped once, read-only); 0 if unset
+static time_t
+VerifClockOffset()
+{
+    static const volatile int64_t *cell = nullptr;
+    static bool tried = false;
+    if (!tried) {
+        tried = true;
+        if (const auto path = getenv("SQUID_VERIF_CLOCK")) {
+            const auto fd = open(path, O_RDONLY);
+            if (fd >= 0) {
+                const auto m = mmap(nullptr, sizeof(int64_t), PROT_READ, MAP_SHARED, fd, 0);
+                if (m != MAP_FAILED)
+                    cell = static_cast<const volatile int64_t *>(m);
+                close(fd);
+            }
+        }
+    }
+    return cell ? static_cast<time_t>(*cell) : 0;
+}
+#endif
+
 time_t
 getCurrentTime()
 {
@@ -27,6 +55,9 @@ getCurrentTime()
 
     current_time.tv_sec = duration_cast<seconds>(now).count();
     current_time.tv_usec = duration_cast<microseconds>(now).count() % 1000000;
+#if SQUID_VERIF
+    current_time.tv_sec += VerifClockOffset();
+#endif
 
     current_dtime = (double) current_time.tv_sec +
                     (double) current_time.tv_usec / 1000000.0;
